@@ -17,34 +17,45 @@ func NewSerial() Workers {
 }
 
 type SerialJob struct {
-	once sync.Once
+	lock sync.Mutex
 	err  error
+	done chan struct{}
 }
 
 func (*SerialWorkers) NewJob(_ int) (Job, error) {
-	return &SerialJob{}, nil
+	return &SerialJob{done: make(chan struct{})}, nil
 }
 
 func (*SerialWorkers) Stop() {}
 
+// Go executes [f] on the caller's goroutine. Tasks of one job never run
+// concurrently, even if they are added from different goroutines.
 func (j *SerialJob) Go(f func() error) {
+	j.lock.Lock()
+	defer j.lock.Unlock()
+
 	if j.err != nil {
 		return
 	}
-	if err := f(); err != nil {
-		j.once.Do(func() {
-			j.err = err
-		})
-	}
+	j.err = f()
 }
 
-func (*SerialJob) Done(f func()) {
+// Done marks that no more tasks will be added to j.
+func (j *SerialJob) Done(f func()) {
+	close(j.done)
 	if f != nil {
 		f()
 	}
 }
 
+// Wait returns the first error of the job's tasks. Like [ParallelJob.Wait], it
+// only returns after j.Done has been called, so tasks added asynchronously
+// (ex: by a batch verifier) are not missed.
 func (j *SerialJob) Wait() error {
+	<-j.done
+
+	j.lock.Lock()
+	defer j.lock.Unlock()
 	return j.err
 }
 
